@@ -34,6 +34,9 @@ RULE = (
     "state = (pair, container forms); transition = one gromov_hausdorff call; non-trivial = a graph is "
     "disconnected or the two containers differ."
     " No \"disconnected\" warning for connected graphs."
+    " Long paths whose diameter sits at the boundaries of the integer types of the distance matrix (diameters 126-129; thorough: also 254-257): "
+    "against paths of diameter 0, 1, 2, 4 in both orders and in rotating containers, and with a disjoint edge added (warning); oracle: the closed form "
+    "mGH(P_n, P_m) = |diam P_n - diam P_m| / 2."
 )
 ASSUMPTIONS = [
     "all scipy.sparse matrix formats (csr, csc, lil, coo, bsr, dok, dia) and csr/coo sparse arrays are part of the space",
@@ -132,7 +135,23 @@ def big_graphs(tier):
     return out
 
 
+PATH_DIAMS_Q = [126, 127, 128, 129]
+PATH_DIAMS_T = PATH_DIAMS_Q + [254, 255, 256, 257]
+
+
+def path_graph(n, extra_edge=False):
+    m = n + (2 if extra_edge else 0)
+    A = [[0] * m for _ in range(m)]
+    for i in range(n - 1):
+        A[i][i + 1] = 1
+    if extra_edge:
+        A[n][n + 1] = 1
+    return A
+
+
 def cases(tier):
+    for d in (PATH_DIAMS_T if tier == "thorough" else PATH_DIAMS_Q):
+        yield {"kind": "path-row", "diam": d}
     for i in range(len(big_graphs(tier))):
         yield {"kind": "big-row", "i": i}
     gs = all_graphs()
@@ -190,7 +209,9 @@ def bracket(ctx, A, B, res, nwarn, what):
 def run_case(case, ctx):
     try:
         with _seam.installed():
-            if case["kind"] == "big-row":
+            if case["kind"] == "path-row":
+                path_row(case, ctx)
+            elif case["kind"] == "big-row":
                 big_row(case, ctx)
             elif case["kind"] == "row":
                 row(case, ctx)
@@ -253,6 +274,42 @@ def row(case, ctx):
             for prefix, tr, (res, nw) in explore(run, 1):
                 ctx.count("schedules_executed")
                 bracket(ctx, A, B, res, nw, {"answers": [t[2] for t in tr]})
+
+
+def path_row(case, ctx):
+    """A long path against short paths: mGH(P_n, P_m) = |diam P_n - diam P_m| / 2 (lower bound: the diametral pair of the longer
+    path under any map; upper bound: clamping i -> min(i, m-1) one way, inclusion the other way)."""
+    d = case["diam"]
+    allf = FORMS + EXTRA_FORMS
+    k = 0
+    for extra in (False, True):
+        A = path_graph(d + 1, extra)
+        for dm in (0, 1, 2, 4):
+            B = path_graph(dm + 1)
+            fa, fb = allf[(d + 3 * k) % len(allf)], allf[(2 * d + 5 * k + 1) % len(allf)]
+            k += 1
+            _seam.cache = {}
+            ctx.state(("path", d, extra, dm, fa, fb))
+            for X, Y, f1, f2 in ((A, B, fa, fb), (B, A, fb, fa)):
+                res, nw, _ = gh_call(ctx, to_form(X, f1), to_form(Y, f2))
+                ctx.valid()
+                ex = {"A": "path of diameter %d%s" % (d, " plus a disjoint edge" if extra else ""), "B": "path of diameter %d" % dm,
+                      "order": "A,B" if X is A else "B,A", "variant": [f1, f2]}
+                try:
+                    lb, ub = float(res[0]), float(res[1])
+                except Exception:  # noqa: BLE001
+                    ctx.violation("result-shape", "gromov_hausdorff did not return a pair of numbers", observed=repr(res)[:200], extra=ex)
+                    continue
+                ctx.outcome((d, dm, lb, ub))
+                t2 = d - dm
+                if not (np.isfinite(lb) and np.isfinite(ub)) or lb < 0 or not (2 * lb <= t2 <= 2 * ub):
+                    ctx.violation("bracket-long-path", "bounds do not bracket the mGH distance of two paths (|diam - diam| / 2)",
+                                  observed=[lb, ub], expected=t2 / 2.0, extra=ex)
+                if extra and nw < 1:
+                    ctx.violation("no-warning", "a disconnected graph was replaced by a component without a warning", observed=nw, extra=ex)
+                if not extra and any("disconnected" in m for m in getattr(nw, "messages", ())):
+                    ctx.violation("spurious-warning", "connected graphs reported as disconnected", observed=nw.messages[:2], extra=ex)
+    ctx.nontriv("long_path_diameter_%d" % d)
 
 
 def big_row(case, ctx):
